@@ -5,6 +5,7 @@ import (
 	"fmt"
 	"math/rand"
 	"os"
+	"sort"
 	"strings"
 
 	sm "github.com/weedbox/pokerface/seat_manager"
@@ -261,7 +262,100 @@ func applySeatOp(o *Out, m *sm.SeatManager, op SeatOp, tr *seatTracker, replay f
 	if tr != nil && !tr.noCount && cnt != tr.joins-tr.leaves {
 		o.Violate("C18", "count-not-joins-minus-leaves", fmt.Sprintf("occupied=%d joins=%d leaves=%d", cnt, tr.joins, tr.leaves), replay())
 	}
+	checkSeatGetters(o, m, post, replay)
 	return code, ret, choice, false
+}
+
+// checkSeatGetters: the read side of the seat manager in the state just reached — every public getter answers
+// without panicking and says what the seat map says (C18: no crash, counts; C08 / C17: who can play)
+func checkSeatGetters(o *Out, m *sm.SeatManager, s seatSnap, replay func() interface{}) {
+	n := len(s.occ)
+	defer func() {
+		if r := recover(); r != nil {
+			o.Violate("C18", "seat-manager-panic", fmt.Sprintf("a getter panicked: %v", r), replay())
+		}
+	}()
+	bad := func(prop, what string) { o.Violate(prop, "getter-disagrees-with-seat-map", what, replay()) }
+	if m.GetSeatCount() != n {
+		bad("C18", fmt.Sprintf("GetSeatCount=%d, %d seats", m.GetSeatCount(), n))
+	}
+	all := m.GetSeats()
+	for i := 0; i < n; i++ {
+		if x := m.GetSeat(i); x == nil || x != all[i] || x.ID != i {
+			bad("C18", fmt.Sprintf("GetSeat(%d)", i))
+		}
+	}
+	if m.GetSeat(n) != nil || m.GetSeat(-1) != nil {
+		bad("C18", "GetSeat outside the table is not nil")
+	}
+	ids := func(l []*sm.Seat) []int {
+		var r []int
+		for _, x := range l {
+			r = append(r, x.ID)
+		}
+		return r
+	}
+	same := func(a, b []int) bool {
+		if len(a) != len(b) {
+			return false
+		}
+		for i := range a {
+			if a[i] != b[i] {
+				return false
+			}
+		}
+		return true
+	}
+	// clockwise from a given seat
+	for start := 0; start < n; start++ {
+		var want []int
+		for k := 0; k < n; k++ {
+			want = append(want, (start+k)%n)
+		}
+		if got := ids(m.GetNormalizeSeats(start)); !same(got, want) {
+			bad("C18", fmt.Sprintf("GetNormalizeSeats(%d)=%v", start, got))
+		}
+	}
+	var active, playable, avail, alt []int
+	from := 0
+	if s.d >= 0 {
+		from = s.d
+	}
+	for i := 0; i < n; i++ {
+		if s.act[i] {
+			active = append(active, i)
+		}
+		if j := (from + i) % n; s.playable(j) {
+			playable = append(playable, j)
+		}
+		if !s.occ[i] && !s.res[i] {
+			if s.act[i] {
+				avail = append(avail, i)
+			} else {
+				alt = append(alt, i)
+			}
+		}
+	}
+	if got := ids(m.GetActiveSeats()); !same(got, active) {
+		bad("C18", fmt.Sprintf("GetActiveSeats=%v, active %v", got, active))
+	}
+	for _, prop := range []string{"C08", "C17"} {
+		if got := ids(m.GetPlayableSeats()); !same(got, playable) {
+			bad(prop, fmt.Sprintf("GetPlayableSeats=%v, playable clockwise from the dealer %v", got, playable))
+		}
+		if got := m.GetPlayableSeatCount(); got != len(playable) {
+			bad(prop, fmt.Sprintf("GetPlayableSeatCount=%d, playable %v", got, playable))
+		}
+	}
+	ga, gb := m.GetAvailableSeats()
+	sort.Ints(ga)
+	sort.Ints(gb)
+	if !same(ga, avail) || !same(gb, alt) {
+		bad("C18", fmt.Sprintf("GetAvailableSeats=%v,%v, empty non-reserved seats: active %v inactive %v", ga, gb, avail, alt))
+	}
+	if got := m.GetAvailableSeatCount(); got != len(avail) {
+		bad("C18", fmt.Sprintf("GetAvailableSeatCount=%d, available %v", got, avail))
+	}
 }
 
 // oracleNext states C17 and C08 (positions) on one Next()
@@ -634,7 +728,10 @@ func runRace(o *Out, rng *rand.Rand, n int) int {
 		max := 2 + rng.Intn(9)
 		m := sm.NewSeatManager(max)
 		const G = 64
-		type res struct{ seat, ret int; err error }
+		type res struct {
+			seat, ret int
+			err       error
+		}
 		results := make(chan res, G*8)
 		done := make(chan bool)
 		targets := make([][]int, G)
